@@ -54,7 +54,7 @@ def gen_scenario(r, kind, quick):
     saver = r.random() < 0.55
     block_bytes = WIN * SW * CH
     total = block_bytes * nb
-    cache_bytes = r.choice([0, 1, block_bytes - 1, block_bytes, 3 * block_bytes, total + 50, 10 ** 6])
+    cache_bytes = r.choice([0, 1, block_bytes - 1, block_bytes, block_bytes + block_bytes // 2, 2 * block_bytes + block_bytes // 2, 3 * block_bytes, total + 50, 10 ** 6])
     weights = {}
     roles = ["tok", "main"] + ["obs%d" % j for j in range(len(obs))] + (["sav"] if saver else [])
     style = r.choice(["uniform", "skew", "skew", "tokfirst", "toklast", "savlag"])
@@ -70,6 +70,8 @@ def gen_scenario(r, kind, quick):
         "pattern": pattern, "partial": partial, "min_dur": mn * BD, "max_dur": mx * BD, "max_silence": ms * BD,
         "strict": r.random() < 0.3, "drop": r.random() < 0.4, "observers": obs, "saver": saver, "cache_bytes": cache_bytes,
         "silence": r.choice([0.0, 0.01, 0.015, 0.05, 0.1, 0.234]), "kind": kind, "stop_at": None, "weights": weights,
+        "template": r.choice(["det_{id}_{start:.3f}_{end:.3f}_{duration:.3f}.wav", "det_{id}_{start}_{end}_{duration}.wav", "{duration}s_from_{start}_no{id}.wav"]),
+        "user_stop": None,
         "timeout_w": r.choice([0.02, 0.2, 1.0]), "seed": r.randrange(1 << 30), "style": style,
     }
 
@@ -123,7 +125,7 @@ def run_real(sc, workdir):
                 o = W.PrintWorker("{id} {start} {end} {duration}", "%S")
             elif kind == "regsave":
                 os.makedirs(os.path.join(workdir, "reg%d" % j), exist_ok=True)
-                o = W.RegionSaverWorker(os.path.join(workdir, "reg%d" % j, "det_{id}_{start:.3f}_{end:.3f}_{duration:.3f}.wav"), "wav")
+                o = W.RegionSaverWorker(os.path.join(workdir, "reg%d" % j, sc.get("template", "det_{id}_{start:.3f}_{end:.3f}_{duration:.3f}.wav")), "wav")
             else:
                 o = W.AudioEventsJoinerWorker(sc["silence"], os.path.join(workdir, "join%d.wav" % j), None, RATE, SW, CH)
             S.add_role("obs%d" % j, o, o._inbox)
@@ -150,6 +152,22 @@ def run_real(sc, workdir):
                 S.mark_done("main")
         mt = threading.Thread(target=main_body, daemon=True)
         S.start_thread("main", mt)
+        if sc.get("user_stop") is not None:
+            # the owner of one observer stops it (public Worker.stop()) while the stream is still running
+            S.add_role("user")
+
+            def user_body():
+                S.bind_current("user")
+                try:
+                    obs_objs[sc["user_stop"][0]].stop()
+                except BaseException:   # noqa
+                    import traceback
+                    S.crashes.append("user: " + traceback.format_exc()[-600:])
+                finally:
+                    if S.role_of_current() == "user":
+                        S.park(("exit",))
+                    S.mark_done("user")
+            S.start_thread("user", threading.Thread(target=user_body, daemon=True))
 
         rnd = random.Random(sc["seed"])
         workers_roles = [x for x in S.go if x != "main"]
@@ -160,7 +178,13 @@ def run_real(sc, workdir):
             all_w_done = all(x in S.done for x in workers_roles)
             main_first = "main" in S.pending and S.pending["main"][0] == "put" and S.pending["main"][2] == "tok"
             cand = []
+            user_first = "user" in S.pending and S.pending["user"][0] == "put"
             for role, g in el:
+                if role == "user" and user_first:
+                    others_done = all(x in S.done for x in workers_roles if x != "user")
+                    if S.steps >= sc["user_stop"][1] or others_done:
+                        cand.append((role, g, 1e6))
+                    continue
                 if role == "main" and main_first:
                     if all_w_done:
                         cand.append((role, g, 1e6))
@@ -168,10 +192,10 @@ def run_real(sc, workdir):
                         cand.append((role, g, 1e6))
                     continue
                 w = sc["weights"].get(role, 1.0)
-                if g == "timeout":
+                if g in ("timeout", "jtimeout"):
                     w *= sc["timeout_w"]
                 cand.append((role, g, w))
-            real_moves = [x for x in cand if x[1] != "timeout"]
+            real_moves = [x for x in cand if x[1] not in ("timeout", "jtimeout")]
             if not cand or (not real_moves and idle_streak > 50):
                 alive = sorted(set(S.go) - S.done)
                 out["stuck"] = ("no thread can make progress: alive %r, waiting on %s" % (
@@ -280,7 +304,7 @@ def expected_regions(sc, data):
     regs = list(auditok.split(data, sampling_rate=RATE, sample_width=SW, channels=CH, min_dur=sc["min_dur"], max_dur=sc["max_dur"],
                               max_silence=sc["max_silence"], strict_min_dur=sc["strict"], drop_trailing_silence=sc["drop"],
                               analysis_window=BD, energy_threshold=50))
-    return [(k + 1, x.meta.start, x.meta.end, bytes(x.data)) for k, x in enumerate(regs)]
+    return [(k + 1, x.meta.start, x.meta.end, bytes(x.data), x.duration) for k, x in enumerate(regs)]
 
 
 def fmt3(x):
@@ -322,7 +346,11 @@ def check_statement(sc, ob):
     for j, o in enumerate(ob.get("observers", [])):
         if o["kind"] == "rec":
             got = [(g[0], g[1], g[2], g[3]) for g in o["got"]]
-            if got != exp:
+            if sc.get("user_stop") is not None and sc["user_stop"][0] == j:
+                if got != [e[:4] for e in exp][:len(got)]:
+                    v.setdefault(pk, "observer %d (stopped by its owner mid-stream) processed %r, not a prefix of the detections" % (j, [(g[0], g[1], g[2]) for g in got]))
+                continue
+            if got != [e[:4] for e in exp]:
                 v.setdefault(pk, "observer %d processed %r, expected exactly the detections %r" % (
                     j, [(g[0], g[1], g[2]) for g in got], [(e[0], e[1], e[2]) for e in exp]))
             for g in o["got"]:
@@ -330,8 +358,8 @@ def check_statement(sc, ob):
                     v.setdefault(pk, "observer %d got a region with parameters %r" % (j, g[4:]))
         elif o["kind"] == "regsave":
             want = {}
-            for (i, st, en, d) in exp:
-                want["det_%d_%s_%s_%s.wav" % (i, fmt3(st), fmt3(en), fmt3(len(d) / (SW * CH) / RATE))] = d
+            for (i, st, en, d, du) in exp:
+                want[sc.get("template", "det_{id}_{start:.3f}_{end:.3f}_{duration:.3f}.wav").format(id=i, start=st, end=en, duration=du)] = d
             got = {k: (x.get("frames") if "error" not in x else x["error"]) for k, x in o["files"].items()}
             if got != want:
                 v.setdefault("C13", "region saver (observer %d) wrote files %r, expected %r" % (j, sorted(got), sorted(want)))
@@ -349,8 +377,8 @@ def check_statement(sc, ob):
                     j, len(f["frames"]), len(exp), round(sc["silence"] * RATE), len(want), "" if f["frames"] != want else " (header differs)"))
     if nprint:
         want_lines = []
-        for (i, st, en, d) in exp:
-            want_lines.append("%d %s %s %s" % (i, fmt3(st), fmt3(en), fmt3(len(d) / (SW * CH) / RATE)))
+        for (i, st, en, d, du) in exp:
+            want_lines.append("%d %s %s %s" % (i, fmt3(st), fmt3(en), fmt3(du)))
         got = sorted(ob["printed"])
         if got != sorted(want_lines * nprint):
             v.setdefault(pk, "print observer(s) printed %r, expected %d x %r" % (ob["printed"], nprint, want_lines))
@@ -477,6 +505,18 @@ def run(prop, tier):
             sc["saver"] = True
             sc["weights"]["sav"] = r.choice([0.005, 0.3, 1.0, 30.0])
         scen.append(sc)
+    if prop == "C12":
+        for _ in range(80 if quick else 900):
+            sc = gen_scenario(r, "natural", quick)
+            while len(sc["observers"]) < 2:
+                sc["observers"].append("rec")
+            sc["observers"] = ["rec" if k in ("joiner", "regsave") else k for k in sc["observers"]]
+            for j in range(len(sc["observers"])):
+                sc["weights"].setdefault("obs%d" % j, 1.0)
+            sc["user_stop"] = (r.randrange(len(sc["observers"])), r.randrange(0, 10 + 4 * len(sc["pattern"])))
+            if sc["user_stop"][0] < len(sc["observers"]) and sc["observers"][sc["user_stop"][0]] == "print":
+                sc["observers"][sc["user_stop"][0]] = "rec"
+            scen.append(sc)
     for _ in range(n_stop):
         sc = gen_scenario(r, "stop", quick)
         if prop in ("C13", "C14") and r.random() < 0.6 and not sc["saver"]:
@@ -533,6 +573,9 @@ def run(prop, tier):
         if ob.get("error"):
             mismatches.append({"scenario": sc, "what": "harness error while driving the implementation: " + ob["error"]})
             continue
+        if sc.get("user_stop") is not None:
+            hist["user_stopped_observer"] = hist.get("user_stopped_observer", 0) + 1
+            continue            # an action outside the model's alphabet: judged by the statement only
         mp_ = pres[pkeys[(sc["min_dur"], sc["max_dur"], sc["max_silence"])]]
         if mp_[0] != 0:
             mismatches.append({"scenario": sc, "what": "model rejects the split parameters %r" % (mp_,)})
